@@ -55,7 +55,7 @@ type Case struct {
 var checker = &vk.Checker[Case]{
 	ID: "C20",
 	Rule: "random acyclic (type, value) trees, depth <= 4, fan-out <= 4, built with reflect (StructOf, SliceOf, MapOf, ArrayOf, PtrTo): every scalar kind incl. int, uint, uintptr and complex; strings (incl. empty); arrays (len 0..3); slices and maps (nil / empty / non-empty; map keys string, ints, bool, small arrays/structs, interface{} holding a scalar or string; distinct by construction); " +
-		"pointers (nil / to a fresh value; a class with two pointers to one pointee); interface{} fields/elements (nil / holding any generated value); structs with 0..4 fields and hand-declared named structs with unexported fields; top-level nil. Oracle by construction: the builder returns the expected size (widths from a fixed 64-bit table, headers 16/24/8/8/16 once per string/slice/map/pointer/interface node, arrays/structs the plain sum). " +
+		"pointers (nil / to a fresh value; a class with two pointers to one pointee); interface{} fields/elements (nil / holding any generated value); structs with 0..4 fields, hand-declared named structs with unexported fields, and two different local struct types that print the same type name; top-level nil. Oracle by construction: the builder returns the expected size (widths from a fixed 64-bit table, headers 16/24/8/8/16 once per string/slice/map/pointer/interface node, arrays/structs the plain sum). " +
 		"size.Of(v) == expected, no panic, and the number after the last ': ' on the first line of Stat(v, depth, maxItem) == expected. Grid: every scalar kind alone and inside a struct, slice, array, map value, pointer, interface. Non-trivial: a header-carrying kind nested inside another header-carrying kind. Distinct by hash of the case.",
 	Check:    check,
 	Classify: classify,
@@ -88,6 +88,48 @@ type named2 struct {
 	z  [2]bool
 }
 
+// Two different struct types whose reflect.Type.String() is the same ("c20.rec"): local types
+// declared in two functions. Anything the library keys by the printed type name mixes them up.
+func mkRecA(v V) (reflect.Value, int) {
+	type rec struct {
+		a int8
+		b string
+		c int64
+		d []uint16
+	}
+	r := rec{a: int8(v.I), b: strings.Repeat("a", max(v.Len, 0)), c: 7}
+	if !v.Nil {
+		r.d = make([]uint16, len(v.Elems))
+	}
+	return reflect.ValueOf(r), 1 + 16 + len(r.b) + 8 + 24 + 2*len(r.d)
+}
+
+func mkRecB(v V) (reflect.Value, int) {
+	type rec struct {
+		b string
+		d map[string]int32
+		a int32
+		e *int16
+		f bool
+	}
+	r := rec{b: strings.Repeat("b", max(v.Len, 0)), a: int32(v.I)}
+	sum := 16 + len(r.b) + 8 + 4 + 8 + 1
+	if !v.Nil {
+		r.d = map[string]int32{}
+		for i := range v.Elems {
+			k := fmt.Sprintf("k%d", i)
+			r.d[k] = int32(i)
+			sum += 16 + len(k) + 4
+		}
+	}
+	if v.I%2 == 1 {
+		x := int16(v.I)
+		r.e = &x
+		sum += 2
+	}
+	return reflect.ValueOf(r), sum
+}
+
 func isScalar(k string) bool { _, ok := scalarWidth[k]; return ok }
 
 func goType(t T) reflect.Type {
@@ -110,6 +152,12 @@ func goType(t T) reflect.Type {
 			fs[i] = reflect.StructField{Name: "F" + strconv.Itoa(i), Type: goType(f)}
 		}
 		return reflect.StructOf(fs)
+	case "recA":
+		v, _ := mkRecA(V{})
+		return v.Type()
+	case "recB":
+		v, _ := mkRecB(V{})
+		return v.Type()
 	case "named1":
 		return reflect.TypeOf(named1{})
 	case "named2":
@@ -205,6 +253,10 @@ func build(t T, v V) (reflect.Value, int) {
 			sum += sz
 		}
 		return out, sum
+	case "recA":
+		return mkRecA(v)
+	case "recB":
+		return mkRecB(v)
 	case "named1":
 		n := named1{a: int32(v.I), b: strings.Repeat("b", max(v.Len, 0))}
 		sum := 4 + 16 + len(n.b)
@@ -360,7 +412,7 @@ func check(c Case) *vk.Failure {
 
 func header(k string) bool {
 	switch k {
-	case "string", "slice", "map", "ptr", "iface", "named1", "named2", "shared":
+	case "string", "slice", "map", "ptr", "iface", "named1", "named2", "shared", "recA", "recB":
 		return true
 	}
 	return false
@@ -407,7 +459,7 @@ func nested(t T, v V, inside bool) bool {
 		if !v.Nil && v.Dyn != nil {
 			return nested(*v.Dyn, elemV(v, 0), true)
 		}
-	case "named1", "named2":
+	case "named1", "named2", "recA", "recB":
 		return true
 	}
 	return false
@@ -439,7 +491,7 @@ func classify(c Case) (bool, []string) {
 	seen := map[string]bool{}
 	kinds(c.T, c.V, seen)
 	labels := []string{"top:" + c.T.K}
-	for _, k := range []string{"uint", "uintptr", "int", "map", "iface", "ptr", "slice", "string", "array", "struct", "complex64", "complex128", "named1", "named2", "shared"} {
+	for _, k := range []string{"uint", "uintptr", "int", "map", "iface", "ptr", "slice", "string", "array", "struct", "complex64", "complex128", "named1", "named2", "shared", "recA", "recB"} {
 		if seen[k] {
 			labels = append(labels, "has:"+k)
 		}
@@ -479,7 +531,7 @@ func genType(t *rapid.T, depth int, allowIface bool) T {
 		}
 		return T{K: "string"}
 	case 6:
-		return T{K: []string{"named1", "named2"}[gen.Uniform(t, 2, "named")]}
+		return T{K: []string{"named1", "named2", "recA", "recB"}[gen.Uniform(t, 4, "named")]}
 	case 7:
 		e := genType(t, depth-1, true)
 		return T{K: "shared", Elem: &e}
@@ -565,7 +617,7 @@ func genValue(t *rapid.T, ty T, depth int) V {
 		for _, f := range ty.Fields {
 			v.Elems = append(v.Elems, genValue(t, f, depth-1))
 		}
-	case "named1", "named2":
+	case "named1", "named2", "recA", "recB":
 		v.Len = gen.Uniform(t, 6, "len")
 		v.Nil = gen.Chance(t, 1, 3, "nil")
 		n := gen.Uniform(t, 4, "n")
@@ -623,6 +675,28 @@ func TestGrid(t *testing.T) {
 	for _, kt := range []T{{K: "bool"}, {K: "int"}, {K: "uint"}, {K: "uintptr"}, {K: "iface"}, {K: "array", Elem: &T{K: "int16"}, Len: 2}, {K: "struct", Fields: []T{{K: "int32"}, {K: "string"}}}} {
 		kt := kt
 		checker.Run(t, Case{T: T{K: "map", Key: &kt, Elem: &T{K: "string"}}, V: V{Keys: []V{{Len: 1}, {Len: 2}}, Elems: []V{{Len: 3}, {Len: 0}}}, Class: "grid", Depth: 1, MaxItem: 1})
+	}
+	for _, k := range []string{"recA", "recB", "recA", "recB"} { // same printed type name, different layouts, alternating
+		checker.Run(t, Case{T: T{K: k}, V: V{I: 3, Len: 4, Elems: make([]V, 3)}, Class: "grid", Depth: 2, MaxItem: 3})
+		checker.Run(t, Case{T: T{K: "slice", Elem: &T{K: k}}, V: V{Elems: []V{{I: 1, Len: 2, Elems: make([]V, 2)}, {I: 2, Nil: true}}}, Class: "grid", Depth: 1, MaxItem: 1})
+	}
+	// large containers (size thresholds of any bulk fast path)
+	for _, n := range []int{1023, 1024, 1025, 70001} {
+		for _, ek := range []string{"int32", "uint8", "string", "iface"} {
+			ek := ek
+			elems := make([]V, n)
+			for i := range elems {
+				elems[i] = V{I: i % 50, Len: i % 7}
+				if ek == "iface" {
+					elems[i] = V{Dyn: &T{K: "uint16"}, Elems: []V{{I: i % 9}}}
+					if i%5 == 0 {
+						elems[i] = V{Nil: true}
+					}
+				}
+			}
+			checker.Run(t, Case{T: T{K: "slice", Elem: &T{K: ek}}, V: V{Elems: elems}, Class: "grid-large", Depth: 1, MaxItem: 2})
+		}
+		checker.Run(t, Case{T: T{K: "string"}, V: V{Len: n}, Class: "grid-large"})
 	}
 	checker.Run(t, Case{T: T{K: "named1"}, V: V{I: 3, Len: 4, Elems: make([]V, 3)}, Class: "grid", Depth: 2, MaxItem: 3})
 	checker.Run(t, Case{T: T{K: "named2"}, V: V{I: 2, Len: 4, Elems: make([]V, 2)}, Class: "grid", Depth: 2, MaxItem: 3})
